@@ -712,8 +712,8 @@ def exercise(ck, scn: dict, tag: str, root: str, kills: bool = True, faults: boo
                     S.cleanup(b5)
                 if persistent or (err is None and kind == "replace"):
                     continue
-                if kind == "write" and k % 2 and not ck.thorough:
-                    continue            # quick tier: every second write fault is followed up by kill points
+                if kind == "write" and k % 3 and not ck.thorough:
+                    continue            # quick tier: every third write fault is followed up by kill points
                 # fault at k, then death before effect j (j ranges over everything that runs after the fault)
                 for j in range(k + 1, c2.n):
                     code, before4 = S.run_killed(scn, root, j, fault_at=k, err=err)
